@@ -2,7 +2,9 @@
    Property theorems only.  The byte parsers (gogo-protobuf Unmarshal, jsonpb) are third-party and
    NOT modelled: "for all byte strings" is carried from the parsed structure on - [unmarshal] is an
    arbitrary function, so every structure a parser could return is covered (nil sub-messages,
-   wrong-length uuids, unknown enum numbers, absent oneofs, nil list elements, nil map values). *)
+   wrong-length uuids, unknown enum numbers, absent oneofs, nil list elements, nil map values).
+   F24 (nil data point group accepted) is repaired in the source; F30 (the protobuf decoder accepts strings
+   that are not UTF-8, which the JSON re-encoding alters) lies in the byte layer and is a known finding. *)
 From Coq Require Import List NArith ZArith Bool String.
 From Iscp Require Import Gen.Enums Gen.Conv Model.Codec Proofs.CodecProofs.
 Import ListNotations.
@@ -39,23 +41,75 @@ Theorem c12_size_gate :
 Proof. exact size_gate_generated. Qed.
 Print Assumptions c12_size_gate.
 
-(* re-encode stability, PARTIAL: a decoded message that lies in the forward domain encodes and
-   decodes back to its canonical form.  Missing for the full statement: a proof that every message
-   the backward converter produces lies in the forward domain and is canonical - which is FALSE for
-   the code as it is (next theorem); for all other structures it is checked by the harness h-fuzz
-   on every produced message, not proved. *)
-Theorem c12_reencode_stable_partial : forall p m,
+(* re-encode stability, IN FULL, for the decoder as it is.  [bdom] states what Go's types guarantee
+   about a parsed proto structure (uint32 seconds and milliseconds, int64 nanoseconds, uuid.UUID =
+   [16]byte).  For EVERY such structure - whatever the byte parser and the bytes: if the decoder
+   produces a message, the message encodes and its encoding decodes back to it (nil and empty
+   collections identified).  Proved by induction on conversion terms (a syntactic relation between the
+   backward and the forward term implies "produced values lie in the forward domain and are
+   canonical"); the relation itself is checked on the two converters by computation. *)
+Theorem c12_reencode_stable : forall p m,
+  bdom p2w_msg p = true -> eval p2w_msg p = Ok m ->
+  exists m', model_roundtrip m = Ok m' /\ nilnorm m' = nilnorm m.
+Proof. exact reencode_stable. Qed.
+Print Assumptions c12_reencode_stable.
+
+(* the same for messages known to lie in the forward domain (no typing hypothesis needed) *)
+Theorem c12_reencode_stable_in_range : forall p m,
   eval p2w_msg p = Ok m -> in_range w2p_msg m = true -> model_roundtrip m = Ok (canon w2p_msg m).
 Proof. exact reencode_stable_in_range. Qed.
-Print Assumptions c12_reencode_stable_partial.
+Print Assumptions c12_reencode_stable_in_range.
 
-(* F22: the structure jsonpb produces for {"upstream_chunk":{"stream_chunk":{"data_point_groups":[null]}}}
-   is accepted (nil group -> empty group without data id), the produced message encodes, and the
-   encoding is rejected by the decoder *)
-Theorem c12_reencode_refuted :
-  exists m, eval p2w_msg f22_proto = Ok m /\ is_ok (eval w2p_msg m) = true /\ model_roundtrip m = Err.
-Proof. exact reencode_refuted. Qed.
-Print Assumptions c12_reencode_refuted.
+(* record of F24 (repaired in the source): a statement about the FORMER chunk conversion term, in which
+   toDataPointGroup turned a nil group - what jsonpb produces for "data_point_groups":[null] - into an
+   empty group without data id.  That chunk encoded and its encoding was rejected (by the former and by
+   the current decoder); the former term is not in the relation that the stability proof rests on. *)
+Theorem c12_f24_former_term :
+  (exists m p', eval p_chunk_before_f24 f24_chunk = Ok m /\ eval w_chunk m = Ok p' /\
+                eval p_chunk_before_f24 p' = Err /\ eval p_chunk p' = Err) /\
+  ~ back_pairP p_chunk_before_f24 w_chunk.
+Proof. exact (conj f24_former_term_refuted back_pair_former_term_fails). Qed.
+Print Assumptions c12_f24_former_term.
+
+(* the current decoder rejects the nil group *)
+Theorem c12_f24_repaired :
+  eval p_chunk f24_chunk = Panic /\
+  model_decode true (Some (VOneof 20 (VStruct [VInt 0; f24_chunk; VList []; VNil]))) = Err.
+Proof. exact f24_now_rejected. Qed.
+Print Assumptions c12_f24_repaired.
+
+(* non-vacuity of the hypotheses of c12_reencode_stable: the 39 full structures satisfy them *)
+Example c12_reencode_hypotheses_satisfiable :
+  forallb (fun p => bdom p2w_msg p && is_ok (eval p2w_msg p)) full_protos = true.
+Proof. vm_compute. reflexivity. Qed.
+
+(* systematic search for structures of the F24 kind (a nil element accepted and then unstable).
+   [full_protos] are proto structures derived from the backward conversion term itself (every
+   sub-message present, two elements in every list and map, one structure per oneof alternative: 39),
+   all accepted and re-encoding to themselves; [nil_enum] replaces ONE list element or ONE map value by
+   nil, at every position of every message type (62 structures).  None is accepted-but-unstable; the 8
+   nil data point groups are rejected; the only accepted ones are nil values of the upstream alias
+   table of a downstream chunk ack (they become all-zero upstream infos, stable); every other nil
+   element / value is rejected (converter panic, recovered). *)
+Theorem c12_nil_positions :
+  forallb (fun p => match eval p2w_msg p with Ok m => reencodes m | _ => false end) full_protos = true /\
+  List.length full_protos = 39%nat /\ List.length nil_enum = 62%nat /\
+  forallb (fun p => negb (accepted_unstable p)) nil_enum = true /\
+  List.length (filter has_nil_group nil_enum) = 8%nat /\
+  forallb (fun p => negb (has_nil_group p) || negb (is_ok (eval p2w_msg p))) nil_enum = true /\
+  forallb (fun p => match eval p2w_msg p with
+                    | Ok _ => match p with VOneof 23 _ => true | _ => false end
+                    | _ => true end) nil_enum = true.
+Proof. exact nil_enumeration. Qed.
+Print Assumptions c12_nil_positions.
+
+(* the judge: an observation of the real decoder that agrees with the model ([fuzz_corr], evaluated by
+   h-fuzz on every input) satisfies the safety part of the property predicate - no panic escaped, the
+   too-large error exactly above a non-zero maximum and before decoding, otherwise Transport.Read
+   yields a message exactly when DecodeFrom does *)
+Theorem c12_corr_implies_safe : forall c, fuzz_corr c = true -> fuzz_ok_safe c = true.
+Proof. exact fuzz_corr_safe. Qed.
+Print Assumptions c12_corr_implies_safe.
 
 (* non-vacuity: hostile structures and their outcomes *)
 Example c12_example :
